@@ -19,6 +19,7 @@ Tpl == {
   [t |-> "block", scope |-> "a", sel |-> "f", members |-> << <<"p", L("2")>>, <<"q", L("1")>> >>, lines |-> 3],   \* 2nd member denied
   [t |-> "block", scope |-> "", sel |-> "u", members |-> << <<"p", L("1")>> >>, lines |-> 2],
   [t |-> "block", scope |-> "", sel |-> "g", members |-> << <<"p", <<"ref", "w">>>> >>, lines |-> 2],
+  [t |-> "block", scope |-> "b", sel |-> "f", members |-> << <<"p", L("3")>> >>, lines |-> 2],     \* a block nothing is wrong with
   [t |-> "import", module |-> "gvmod_ok", lines |-> 1],
   [t |-> "import", module |-> "gvmod_missing", lines |-> 1],
   [t |-> "include", file |-> "a", lines |-> 1],
@@ -31,6 +32,7 @@ TplQuick == {
   B("", "f", "p", L("1")), B("", "f", "p", L("2")), B("", "u", "p", L("1")), B("", "f", "q", L("1")), B("", "g", "p", <<"ref", "u">>),
   [t |-> "block", scope |-> "a", sel |-> "f", members |-> << <<"p", L("2")>>, <<"q", L("1")>> >>, lines |-> 3],
   [t |-> "block", scope |-> "", sel |-> "u", members |-> << <<"p", L("1")>> >>, lines |-> 2],
+  [t |-> "block", scope |-> "b", sel |-> "f", members |-> << <<"p", L("3")>> >>, lines |-> 2],
   [t |-> "import", module |-> "gvmod_missing", lines |-> 1],
   [t |-> "include", file |-> "a", lines |-> 1], [t |-> "include", file |-> "b", lines |-> 1],
   [t |-> "include", file |-> "nofile", lines |-> 1], [t |-> "include", file |-> "p", lines |-> 1], [t |-> "syntax", lines |-> 1] }
